@@ -111,6 +111,17 @@ Theorem C04_comment_field_kinds_are_the_models :
   && Nat.eqb (List.length (nodup string_dec (map fst add_comment_field_cases))) 4 = true.
 Proof. vm_compute. reflexivity. Qed.
 
+
+(* ... hence: running the translated source of applyDecorations adds every comment of the list to the
+   file's comments exactly once and no other comment *)
+Theorem C04_translated_applyDecorations_renders_each_comment_once :
+  forall s id kind name isend ds u,
+  cnt u (all_uids (comments (e_rs (exec_list applyDecorations_src (decs_env s kind id name isend ds))))) =
+  (cnt u (all_uids (comments s)) + cnt u (comment_uids ds))%nat.
+Proof.
+  intros. rewrite (proj1 (applyDecorations_source_is_model s id kind name isend ds)). apply apply_decs_cnt.
+Qed.
+
 Print Assumptions C04_points_exact.
 Print Assumptions C04_render_order_is_documented_order.
 Print Assumptions C04_funcdecl_signature_points.
@@ -120,3 +131,4 @@ Print Assumptions C04_dec_segment.
 Print Assumptions C04_comments_rendered_once.
 Print Assumptions C04_applyDecorations_source_computes_the_model.
 Print Assumptions C04_comment_field_kinds_are_the_models.
+Print Assumptions C04_translated_applyDecorations_renders_each_comment_once.
